@@ -18,6 +18,7 @@ linearity in y, polynomial reproduction, residuals |LL^T-A|, |Ax-b|, leading-min
 """
 import math
 import traceback
+import copy
 import numpy as np
 from harness import core
 
@@ -94,7 +95,19 @@ def make_obj(case):
     b.coeff = bf_(case['coeff'])
     b.icoeff = np.zeros_like(b.coeff)
     b.xmin, b.xmax, b.funcname = 0.0, 1.0, 'legendre'
+    # whatever else the constructor of the current source sets up (bookkeeping attributes) comes from a regularly built object
+    if 'attrs' not in _TEMPLATE:
+        try:
+            _TEMPLATE['attrs'] = dict(bspline(np.arange(12.0), nord=4, nbkpts=4).__dict__)
+        except Exception:
+            _TEMPLATE['attrs'] = {}
+    for k_, v_ in _TEMPLATE['attrs'].items():
+        if k_ not in b.__dict__:
+            setattr(b, k_, copy.deepcopy(v_))
     return b
+
+
+_TEMPLATE = {}
 
 
 def impl_fit(case, y=None):
